@@ -1,6 +1,6 @@
 (** C17 - Every subschema is addressable by its JSON Pointer. *)
 From Coq Require Import List NArith ZArith QArith Bool.
-From JS Require Import Str Lit Json Res GoValue Schema Basic Pointer PointerFacts ChildFacts Addressable Resolve.
+From JS Require Import Str Lit Json Res GoValue Schema Basic Pointer PointerFacts ChildFacts Addressable Resolve FieldChildren.
 Import ListNotations.
 
 (** '#' + the RFC 6901 pointer of a subschema's location resolves to precisely that
@@ -30,6 +30,16 @@ Theorem C17_only : forall s ptr p c,
   dereferenceJSONPointer s ptr = Ok (p, c) -> subschema_at s p = Some c.
 Proof. exact dereference_sound. Qed.
 Print Assumptions C17_only.
+
+(** ... and that location is one of the subschemas of the tree: a pointer that resolves names a
+    subschema location (one [all_sub] lists: reachable from the root through the keywords that
+    hold subschemas, their indices and their keys), so a pointer that names none makes the
+    dereference - and with it Resolve - fail.  Together with [C17_addressable] the resolvable
+    pointers are exactly the subschema locations. *)
+Theorem C17_only_subschemas : forall s ptr p c,
+  dereferenceJSONPointer s ptr = Ok (p, c) -> In (p, c) (all_sub s).
+Proof. intros s ptr p c H. apply location_listed. now apply (dereference_sound s ptr). Qed.
+Print Assumptions C17_only_subschemas.
 
 Example C17_example :
   (* signed, padded and dash indexes, and a bad escape, are refused *)
